@@ -71,15 +71,49 @@ class Session:
                 try:
                     tu = cxx2c.TU(src, [os.path.join(REPO, 'include'), self.gen], ['HAVE_CONFIG_H'] + list(defines))
                     self.units[key] = cxx2c.Unit(tu)
+                    self.layout_check(self.units[key], tu_rel, defines)
                 except cxx2c.Unsupported as ex:
                     raise Broken('cannot load %s: %s' % (tu_rel, ex))
             return self.units[key]
+
+
+def _layout_check(self, unit, tu_rel, defines):
+    """R7 guard: sizes, field offsets and enumerator values of the emitted C types equal those of the real
+    C++ declarations (g++ static_asserts against the real translation unit)"""
+    items = unit.prelude.layout_items()
+    d = tempfile.mkdtemp(prefix='layout.', dir=self.dir)
+    body = ''.join('  printf("%%ld\\n", (long)(%s));\n' % c for c, _ in items)
+    open(os.path.join(d, 'l.c'), 'w').write(cxx2c.C_PRELUDE + unit.types + '#include <stdio.h>\nint main(void){\n' + body + 'return 0;}\n')
+    p = subprocess.run(['gcc', '-std=gnu11', '-w', 'l.c', '-o', 'l'], cwd=d, capture_output=True, text=True)
+    if p.returncode != 0: raise Broken('layout check: emitted types do not compile as C: ' + p.stderr[-1500:])
+    vals = subprocess.run(['./l'], cwd=d, capture_output=True, text=True).stdout.split()
+    if len(vals) != len(items): raise Broken('layout check: value count mismatch')
+    cpp = '#include <stddef.h>\n#include "%s"\n' % os.path.join(REPO, tu_rel)
+    cpp += ''.join('static_assert((long)(%s) == %sL, "layout: %s");\n' % (x, v, x.replace('"', '')) for (c, x), v in zip(items, vals))
+    open(os.path.join(d, 'l.cpp'), 'w').write(cpp)
+    p = subprocess.run(['g++', '-std=c++11', '-fsyntax-only', '-w', '-Wno-invalid-offsetof', '-fno-access-control', '-I' + os.path.join(REPO, 'include'), '-I' + self.gen,
+                        '-DHAVE_CONFIG_H'] + ['-D' + x for x in defines] + ['l.cpp'], cwd=d, capture_output=True, text=True)
+    shutil.rmtree(d, ignore_errors=True)
+    if p.returncode != 0:
+        errs = [l for l in p.stderr.splitlines() if 'error' in l][:8]
+        raise Broken('layout check failed for %s (emitted C types disagree with the real C++): %s' % (tu_rel, ' | '.join(errs)))
+    unit.layout_checked = len(items)
+
+Session.layout_check = _layout_check
+
+
+NOWRAP_PUSH = '#pragma CPROVER check push\n#pragma CPROVER check disable "unsigned-overflow"\n'
+NOWRAP_POP = '\n#pragma CPROVER check pop\n'
 
 
 def splice(fn_text, fspec, loops):
     """insert contract clauses, loop contracts and ghost statements at the emitter's markers"""
     t = fn_text
     contract = fspec.contract if fspec else ''
+    if contract.strip():
+        # spec arithmetic (ghost counters) is not program arithmetic: no unsigned-wrap check inside clauses
+        t = NOWRAP_PUSH + t
+        t = t.replace('/*@ENTRY@*/', NOWRAP_POP + '/*@ENTRY@*/', 1)
     t = t.replace('/*@CONTRACT@*/', contract.rstrip('\n'), 1)
     for k in range(loops):
         mark = '/*@LOOP %d@*/' % k
@@ -89,12 +123,23 @@ def splice(fn_text, fspec, loops):
         for k in fspec.loops:
             if k >= loops: raise Broken('%s: spec has a contract for loop %d but the function has %d loops' % (fspec.name, k, loops))
         ent = fspec.ghost.get('entry', '')
+        for st in ent.split(';'):
+            st = st.strip()
+            if st and not re.match(r'^g\w*\s*(=|\+=|\+\+)', st): raise Broken('%s: ghost statement may only assign g* variables: %s' % (fspec.name, st))
         t = t.replace('/*@ENTRY@*/', ent.rstrip('\n'), 1)
         for where, txt in fspec.ghost.items():
             if where == 'entry': continue
-            raise Broken('%s: ghost position "%s" not supported' % (fspec.name, where))
+            m = re.match(r'(before-loop|after-loop) (\d+)$', where)
+            if not m: raise Broken('%s: ghost position "%s" not supported' % (fspec.name, where))
+            mark = '/*@%s %s@*/' % ('BEFORELOOP' if m.group(1) == 'before-loop' else 'AFTERLOOP', m.group(2))
+            if mark not in t: raise Broken('%s: no loop %s for ghost statement' % (fspec.name, m.group(2)))
+            for st in txt.split(';'):
+                st = st.strip()
+                if st and not re.match(r'^g\w*\s*(=|\+=|\+\+)', st): raise Broken('%s: ghost statement may only assign g* variables: %s' % (fspec.name, st))
+            t = t.replace(mark, txt.rstrip('\n'), 1)
     else:
         t = t.replace('/*@ENTRY@*/', '', 1)
+    t = re.sub(r'/\*@(BEFORELOOP|AFTERLOOP) \d+@\*/\n?', '', t)
     return t
 
 
@@ -206,7 +251,7 @@ def assemble(sess, sp, proof):
             else:
                 raise Broken('%s: callee %s has neither @body, @replace nor a stub body' % (proof.name, c))
     for cn, u, r in bodies: protos.append(r['proto'] + ';')
-    out.append('/* ---- callee prototypes / contracts ---- */\n' + '\n'.join(protos) + '\n')
+    out.append('/* ---- callee prototypes / contracts ---- */\n' + NOWRAP_PUSH + '\n'.join(protos) + NOWRAP_POP)
     if proof.extra: out.append('/* ---- extra ---- */\n' + proof.extra)
     for cn, u, r in bodies:
         fs = sp.functions.get(cn)
@@ -218,7 +263,9 @@ def assemble(sess, sp, proof):
             text = splice(text, fs2, r['loops'])
         else:
             text = splice(text, fs, r['loops'])
-        out.append(text)
+        if cn in proof.allow_wrap:
+            text = '#pragma CPROVER check push\n#pragma CPROVER check disable "unsigned-overflow"\n' + text + '#pragma CPROVER check pop\n'
+        out.append(text + '/*@RESETLINE@*/')
     # harness
     if proof.harness:
         out.append(proof.harness)
@@ -230,7 +277,16 @@ def assemble(sess, sp, proof):
         call = '%s(%s);' % (cn, ', '.join(param_name(p) for p in ps))
         out.append('void verif_harness(void)\n{\n%s  %s\n  VERIF_CANARY\n}\n' % (decls, call))
     canary = '__CPROVER_assert(0, "verif canary: harness end reachable");' if proof.canary else ''
-    a.text = '#define VERIF_CANARY %s\n' % canary + '\n'.join(out)
+    text = '#define VERIF_CANARY %s\n' % canary + '\n'.join(out)
+    # the emitted bodies carry #line directives into /repo; give the generated text its own lines back
+    lines = text.split('\n')
+    for k, l in enumerate(lines):
+        if '/*@RESETLINE@*/' in l: lines[k] = l.replace('/*@RESETLINE@*/', '') + '\n#line %d "proof.c"' % (k + 3)
+    # inserting one extra line per marker shifts what follows: recompute in a second pass
+    text = '\n'.join(lines); lines = text.split('\n')
+    for k, l in enumerate(lines):
+        if l.startswith('#line ') and l.endswith('"proof.c"'): lines[k] = '#line %d "proof.c"' % (k + 2)
+    a.text = '\n'.join(lines)
     a.replaced = [c for c in proof.replace]
     a.loops_with_contract = sum(len(sp.functions[b[0]].loops) for b in bodies if b[0] in sp.functions)
     return a
@@ -247,6 +303,57 @@ def run(cmd, timeout, cwd=None):
         return p.returncode, p.stdout, p.stderr, time.time() - t
     except subprocess.TimeoutExpired as ex:
         return -9, (ex.stdout or b'').decode(errors='replace') if isinstance(ex.stdout, bytes) else (ex.stdout or ''), 'TIMEOUT', time.time() - t
+
+
+def base_tail(cmd, proof):
+    return cmd[2:]
+
+
+def run_portfolio(cur, backends, tail, timeout, cwd):
+    """start one cbmc per back end; the first that terminates with a parsable result wins, the others are killed"""
+    import signal
+    t0 = time.time()
+    procs = []
+    for b in backends:
+        out = open(os.path.join(cwd, 'out_%s.json' % b), 'w')
+        p = subprocess.Popen(['cbmc', cur] + backend_flags(b) + tail, stdout=out, stderr=subprocess.DEVNULL, cwd=cwd, preexec_fn=limit_pg)
+        procs.append((b, p, out))
+    winner = None; last = (-9, '', 'TIMEOUT', backends[0])
+    while time.time() - t0 < timeout and winner is None:
+        alive = 0
+        for b, p, out in procs:
+            rc = p.poll()
+            if rc is None: alive += 1; continue
+            if getattr(p, '_seen', False): continue
+            p._seen = True
+            out.flush()
+            so = open(os.path.join(cwd, 'out_%s.json' % b)).read()
+            ok = False
+            try:
+                js = json.loads(so)
+                msgs = ' '.join(el.get('messageText', '') for el in js if isinstance(el, dict) and el.get('messageType') in ('ERROR',))
+                ok = any('result' in el for el in js if isinstance(el, dict)) and not re.search(r'out of memory|Parse Error|error message|not declared', msgs) \
+                     and not any(r.get('status') == 'ERROR' for el in js if isinstance(el, dict) for r in el.get('result', []))
+            except Exception:
+                ok = False
+            last = (rc, so, '', b)
+            if ok: winner = (rc, so, '', b); break
+        if winner is None and alive == 0: break
+        if winner is None: time.sleep(0.2)
+    for b, p, out in procs:
+        if p.poll() is None:
+            try: os.killpg(p.pid, signal.SIGKILL)
+            except Exception: pass
+        out.close()
+    dt = time.time() - t0
+    if winner: return winner[0], winner[1], winner[2], dt, winner[3]
+    if time.time() - t0 >= timeout: return -9, last[1], 'TIMEOUT', dt, '+'.join(backends)
+    return last[0], last[1], last[2], dt, last[3]
+
+
+def limit_pg():
+    os.setsid()
+    resource.setrlimit(resource.RLIMIT_AS, (MEM_LIMIT, MEM_LIMIT))
 
 
 def obligation_class(name):
@@ -285,7 +392,7 @@ def run_proof(sess, sp, proof):
         res.status = 'broken'; res.msg = 'goto-cc failed (emitted C does not compile):\n' + (se + so)[-3000:]; return res
     cur = 'a.gb'
     if proof.nondet_static:
-        rc, so, se, dt = run(['goto-instrument', '--nondet-static', cur, 'n.gb'], 300, d)
+        rc, so, se, dt = run(['goto-instrument', '--nondet-static-matching', r'proof\.c:.*', cur, 'n.gb'], 300, d)
         if rc != 0: res.status = 'broken'; res.msg = 'nondet-static failed: ' + (se + so)[-2000:]; return res
         cur = 'n.gb'
     use_dfcc = bool(proof.enforce or proof.replace or a.loops_with_contract)
@@ -294,19 +401,26 @@ def run_proof(sess, sp, proof):
         gi = ['goto-instrument', '--dfcc', 'verif_harness']
         if proof.enforce: gi += ['--enforce-contract', proof.enforce]
         for r in proof.replace: gi += ['--replace-call-with-contract', r]
-        gi += ['--apply-loop-contracts', cur, 'b.gb']
+        # --apply-loop-contracts on a loop without a contract gives spurious 'is assignable' failures (probed)
+        gi += (['--apply-loop-contracts'] if a.loops_with_contract else []) + [cur, 'b.gb']
         rc, so, se, dt = run(gi, 600, d)
         if rc != 0:
             res.status = 'broken'; res.msg = 'goto-instrument --dfcc failed:\n' + (se + so)[-3000:]; return res
         cur = 'b.gb'
     flags = [f for f in DEFAULT_FLAGS if f not in proof.nochecks and f != 'conversion-check-off'] + proof.checks
-    cmd = ['cbmc', cur] + backend_flags(proof.backend) + ['--' + f for f in flags] + ['--json-ui']
+    cmd = ['cbmc', cur] + ['--' + f for f in flags] + ['--json-ui']
     if proof.unwind is not None: cmd += ['--unwind', str(proof.unwind)]
-    if proof.unwindset: cmd += ['--unwindset', proof.unwindset]
+    if proof.unwindset:
+        us = proof.unwindset.split(',')
+        if proof.enforce:   # dfcc renames the enforced function's body
+            us += [u.replace(proof.enforce + '.', proof.enforce + '_wrapped_for_contract_checking.', 1) for u in us if u.startswith(proof.enforce + '.')]
+        cmd += ['--unwindset', ','.join(us)]
     if proof.object_bits: cmd += ['--object-bits', str(proof.object_bits)]
-    res.cmd = ' '.join(gi) + ' && ' + ' '.join(cmd) if gi else ' '.join(cmd)
-    rc, so, se, dt = run(cmd, proof.timeout, d)
-    res.secs = dt
+    backends = proof.backend.split(',')
+    rc, so, se, dt, used = run_portfolio(cur, backends, base_tail(cmd, proof), proof.timeout, d)
+    cmd = ['cbmc', cur] + backend_flags(used) + base_tail(cmd, proof)
+    res.backend_used = used; res.secs = dt
+    res.cmd = (' '.join(gi) + ' && ' if gi else '') + ' '.join(cmd)
     open(os.path.join(d, 'cbmc.json'), 'w').write(so)
     if se == 'TIMEOUT':
         res.status = 'broken'; res.msg = 'cbmc timeout after %ds (%s)' % (proof.timeout, proof.backend); return res
@@ -318,7 +432,7 @@ def run_proof(sess, sp, proof):
     for el in js:
         if 'result' in el: results = el['result']
         if el.get('messageType') in ('ERROR', 'WARNING'): msgs.append(el.get('messageText', ''))
-    bad = [m for m in msgs if re.search(r'ignoring|Parse Error|error message|no body for function|unsupported|not declared', m)]
+    bad = [m for m in msgs if re.search(r'ignoring forall|ignoring exists|Parse Error|error message|no body for function|not declared', m)]
     nobody = [m for m in bad if 'no body for function' in m]
     if results is None:
         res.status = 'broken'; res.msg = 'cbmc gave no result (rc=%s): %s' % (rc, '; '.join(msgs)[-2000:] + se[-500:]); return res
@@ -340,8 +454,11 @@ def run_proof(sess, sp, proof):
         res.status = 'broken'; res.msg = 'vacuity: no postcondition obligation was generated'; return res
     if a.loops_with_contract and sum(1 for n in names if 'loop_invariant_step' in n) < 1:
         res.status = 'broken'; res.msg = 'vacuity: loop contracts given but no loop_invariant_step obligation generated (contract dropped)'; return res
-    if any(r['status'] not in ('SUCCESS', 'FAILURE') for r in failed):
+    res.dir = d; res.cur = cur; res.cbmc_cmd = cmd
+    if failed and not any(r['status'] == 'FAILURE' for r in failed):
         res.status = 'broken'; res.msg = 'obligations with status ' + ','.join(sorted(set(r['status'] for r in failed))); return res
+    res.undetermined = [r for r in failed if r['status'] != 'FAILURE']
+    failed = [r for r in failed if r['status'] == 'FAILURE']
     res.failed = failed
     res.status = 'fail' if failed else 'pass'
     res.dir = d; res.cur = cur; res.cbmc_cmd = cmd
